@@ -84,13 +84,37 @@ def _check(rec, st, w, locks, tag):
     """Call the real inf_retis and compare with the oracle."""
     import numpy as np
     from vf.oracles.permanent import p_matrix
+    from vf.oracles.permanent import p_matrix_blocks
     idle = np.where(locks == 0)[0]
     sub = w[np.ix_(idle, idle)]
     ints = bool(np.all(sub == np.round(sub))) and sub.max(initial=0) < 1e6
-    if ints:
-        ref, tot = p_matrix([[int(x) for x in r] for r in sub.tolist()])
+    lst = [[int(x) for x in r] for r in sub.tolist()] if ints else \
+        sub.tolist()
+    # block-wise reference (cheap for many idle ensembles); the sizes of the
+    # irreducible blocks also say where a Monte-Carlo estimate is legitimate
+    cap_b = 12 if len(idle) > 9 else 99
+    if len(idle) and idle[0] == 0 and lst[0][0] and \
+            not any(lst[0][1:]) and not any(r[0] for r in lst[1:]):
+        # the [0-] path and ensemble only match each other: a 1x1 block
+        refb, sizes = p_matrix_blocks([r[1:] for r in lst[1:]], cap_b)
+        if refb not in (None, False):
+            refb = [[1] + [0] * (len(lst) - 1)] + [[0] + list(r)
+                                                   for r in refb]
+        sizes = [1] + list(sizes)
     else:
-        ref, tot = p_matrix(sub.tolist())
+        refb, sizes = p_matrix_blocks(lst, cap_b)
+    if len(idle) <= 9:
+        ref, tot = p_matrix(lst)
+        if ref is not None and refb not in (None, False):
+            rec.ev["oracle_blockwise_vs_full_crosschecks"] = \
+                rec.ev.get("oracle_blockwise_vs_full_crosschecks", 0) + 1
+            if max(abs(float(a) - float(b)) for ra, rb in zip(ref, refb)
+                   for a, b in zip(ra, rb)) > 1e-12:
+                raise RuntimeError("block-wise and full reference disagree")
+    elif refb is False:
+        ref, tot = p_matrix(lst)     # a block > 12: full DP (slow)
+    else:
+        ref = refb
     if ref is None:
         rec.ev["skipped_no_perfect_matching"] = \
             rec.ev.get("skipped_no_perfect_matching", 0) + 1
@@ -108,8 +132,17 @@ def _check(rec, st, w, locks, tag):
     out = np.asarray(out, dtype=float)
     got = out[np.ix_(idle, idle)]
     busy = np.where(locks == 1)[0]
-    mc = len(idle) > 12 and st._random_count > getattr(st, "_vf_rc", 0)
+    # the Monte-Carlo estimator is by design only for an irreducible block
+    # of more than 12 ensembles: everything else must be exact
+    mc = max(sizes, default=0) > 12 and \
+        st._random_count > getattr(st, "_vf_rc", 0)
+    if st._random_count > getattr(st, "_vf_rc", 0):
+        rec.ev["random_prob_calls_seen"] = \
+            rec.ev.get("random_prob_calls_seen", 0) + 1
     st._vf_rc = st._random_count
+    if len(idle) > 12:
+        rec.ev["matrices_with_more_than_12_idle"] = \
+            rec.ev.get("matrices_with_more_than_12_idle", 0) + 1
     tol = 0.05 if mc else 1e-9
     key = "mc_matrices" if mc else "exact_matrices"
     rec.ev[key] = rec.ev.get(key, 0) + 1
@@ -168,8 +201,11 @@ def _rand(job):
     rec = _Rec()
     states = {}
     for c in range(job["count"]):
+        manyidle = c % 12 == 5
         if job.get("big") and c % 10 == 0:
             n = int(rng.integers(13, 16))
+        elif manyidle:
+            n = int(rng.integers(13, 19))
         else:
             n = int(rng.integers(2, 11))
         st = states.setdefault(n, _mk_state(n))
@@ -177,8 +213,16 @@ def _rand(job):
         if rng.random() < 0.2:
             wf[:] = False
         rows = []
-        for _ in range(n):
-            r = int(rng.integers(1, n + 1))
+        reaches = [int(rng.integers(1, n + 1)) for _ in range(n)]
+        if manyidle:
+            # more than 12 idle ensembles, irreducible blocks of at most 7
+            reaches, s0 = [], 0
+            while s0 < n:
+                b = min(n - s0, int(rng.integers(1, 8)))
+                reaches += [s0 + int(rng.integers(t + 1, b + 1))
+                            for t in range(b)]
+                s0 += b
+        for r in reaches:
             row = np.zeros(n)
             for j in range(r):
                 if wf[j]:
@@ -203,7 +247,11 @@ def _rand(job):
         locks[-1] = 1
         if locks[:-1].sum() == n + 1:
             locks[0] = 0
-        if n > 8:
+        if manyidle:
+            # nothing busy: locking a slot removes a row of one block and a
+            # column of another and would merge blocks beyond 12
+            locks[:-1] = 0
+        elif n > 8:
             # keep the oracle affordable: lock enough to leave <= 9 idle
             idx = list(np.where(locks[:-1] == 0)[0])
             rng.shuffle(idx)
